@@ -613,6 +613,13 @@ def GArg.rebind (vars : String → Option Int) : GArg → GArg
   | .param k _ => .param k (vars k)
   | g => g
 
+/-- `Query._get_translator(key, vars)`: the cached translation of this query code is handed out only if every pinned value
+    it records equals the parameter's current value (otherwise the query is translated again) -/
+def cacheLookup (cached : Option (GRes × Fixed)) (vars : String → Option Int) : Option GRes :=
+  match cached with
+  | none => none
+  | some (r, f) => if f.all (fun kv => vars kv.1 == some kv.2) then some r else none
+
 /-- the "whole string" shortcut of `__getitem__`: `start_value == 0 and stop_value == -1` -/
 def shortcut (start stop : GArg) : Prop := start.known 0 = some 0 ∧ stop.known (-1) = some (-1)
 
